@@ -35,7 +35,12 @@ FieldFinite(f) == \A i \in 1..Len(f.t.data) : ElemOK(f, f.t.data[i])
 ElemClose(f, a, b, sc, slack) == IF f.cplx THEN ZClose(a, b, sc, slack) ELSE Close(a, b, sc, slack)
 
 \* B[idx] ~ A[Map(idx)] for every index of B; scale: |a| + |b| + 2^-12 max|A|
-RelatedBy(fa, fb, Map(_), slack) ==
+\* amp: measured effect (max over the field, in double precision) of a one-ulp perturbation of the initialisation on the
+\* same run; "up to rounding" for iterated fits means: within the rounding tolerance OR within AmpFactor times what such a
+\* perturbation does to this very problem (EM iterations amplify rounding on ill-conditioned classes).  amp = 0 for
+\* everything that is not an iterated fit.
+AmpFactor == 1024
+RelatedByA(fa, fb, Map(_), slack, amp) ==
   \* eigenvalues and concentrations are positive quantities whose SMALL values matter (log-determinants, floors):
   \* they are compared purely relatively; other fields get an absolute floor of 2^-12 max|A|
   LET floor == IF fa.name \in {"cacg_eigenvalues", "bingham_eigenvalues", "watson_concentration", "vmf_concentration"}
@@ -44,10 +49,13 @@ RelatedBy(fa, fb, Map(_), slack) ==
   IN  \A i \in 1..Len(idxs) :
         LET b == fb.t.data[Off(fb.t.shape, idxs[i])]
             a == Get(fa.t, Map(idxs[i]))
-        IN  ElemClose(fa, a, b, FAdd(FAdd(AbsF(fa, a), AbsF(fb, b)), floor), slack)
+            diff == IF fa.cplx THEN ZSub(b, a) ELSE FSub(b, a)
+        IN  \/ ElemClose(fa, a, b, FAdd(FAdd(AbsF(fa, a), AbsF(fb, b)), floor), slack)
+            \/ (amp # FZero /\ FLe(AbsF(fa, diff), FMul(FInt(AmpFactor), amp)))
+RelatedBy(fa, fb, Map(_), slack) == RelatedByA(fa, fb, Map, slack, FZero)
 \* fine mode: the encoder also supplies res = B - A o Map computed in double precision; it must be consistent with
 \* the (coarse) Flt difference and small: |res| <= 2^fine (|a| + |b| + floor)
-FineBy(fa, fb, res, Map(_), slack, fine) ==
+FineByA(fa, fb, res, Map(_), slack, fine, amp) ==
   LET floor == IF fa.name \in {"cacg_eigenvalues", "bingham_eigenvalues", "watson_concentration", "vmf_concentration"}
                THEN FZero ELSE FMul(FPow2(-12), FMaxAbs(fa))
       idxs == AllIdx(fb.t.shape)
@@ -60,23 +68,26 @@ FineBy(fa, fb, res, Map(_), slack, fine) ==
             diff == IF fa.cplx THEN ZSub(b, a) ELSE FSub(b, a)
         IN  /\ ElemOK(fa, rr)
             /\ ElemClose(fa, rr, diff, sc, slack)
-            /\ FLe(AbsF(fa, rr), FMul(FPow2(fine), sc))
+            /\ FLe(AbsF(fa, rr), FAdd(FMul(FPow2(fine), sc), FMul(FInt(AmpFactor), amp)))
+FineBy(fa, fb, res, Map(_), slack, fine) == FineByA(fa, fb, res, Map, slack, fine, FZero)
 \* same model
 SameField(fa, fb, slack) == fa.t.shape = fb.t.shape /\ RelatedBy(fa, fb, LAMBDA ix : ix, slack)
 SameFine(fa, fb, res, slack, fine) == fa.t.shape = fb.t.shape /\ FineBy(fa, fb, res, LAMBDA ix : ix, slack, fine)
 \* B = A with the class axis permuted: B[.., k, ..] = A[.., pi[k], ..]   (pi 0-based values, 1-based domain)
-PermField(fa, fb, cax, pi, slack) ==
+PermFieldA(fa, fb, cax, pi, slack, amp) ==
   /\ fa.t.shape = fb.t.shape
   /\ IF cax = 0 \/ fa.t.shape[Len(fa.t.shape) + 1 + cax] = 1
-     THEN RelatedBy(fa, fb, LAMBDA ix : ix, slack)
+     THEN RelatedByA(fa, fb, LAMBDA ix : ix, slack, amp)
      ELSE LET p == Len(fa.t.shape) + 1 + cax
-          IN  RelatedBy(fa, fb, LAMBDA ix : [ix EXCEPT ![p] = pi[ix[p] + 1]], slack)
-PermFine(fa, fb, res, cax, pi, slack, fine) ==
+          IN  RelatedByA(fa, fb, LAMBDA ix : [ix EXCEPT ![p] = pi[ix[p] + 1]], slack, amp)
+PermField(fa, fb, cax, pi, slack) == PermFieldA(fa, fb, cax, pi, slack, FZero)
+PermFineA(fa, fb, res, cax, pi, slack, fine, amp) ==
   /\ fa.t.shape = fb.t.shape
   /\ IF cax = 0 \/ fa.t.shape[Len(fa.t.shape) + 1 + cax] = 1
-     THEN FineBy(fa, fb, res, LAMBDA ix : ix, slack, fine)
+     THEN FineByA(fa, fb, res, LAMBDA ix : ix, slack, fine, amp)
      ELSE LET p == Len(fa.t.shape) + 1 + cax
-          IN  FineBy(fa, fb, res, LAMBDA ix : [ix EXCEPT ![p] = pi[ix[p] + 1]], slack, fine)
+          IN  FineByA(fa, fb, res, LAMBDA ix : [ix EXCEPT ![p] = pi[ix[p] + 1]], slack, fine, amp)
+PermFine(fa, fb, res, cax, pi, slack, fine) == PermFineA(fa, fb, res, cax, pi, slack, fine, FZero)
 \* B = A at leading index lead (B lacks the leading axes)
 SliceField(fa, fb, lead, slack) ==
   /\ Len(fa.t.shape) = Len(fb.t.shape) + Len(lead)
